@@ -38,7 +38,7 @@ PROGRAMS = {
 }
 ALPHA_FULL = [
     "ack1", "ack2", "data:62f1aa", "data:7f2278", "alive0", "err40", "fdataS:aa", "ack1-echo", "ack1-pair",
-    "alive2", "errA43", "errff", "fdataD:bb", "ack1-short", "short-data0", "short-data1", "short-ack1", "ack2-echo",
+    "alive2", "errA43", "errff", "fdataD:bb", "ack1-short", "short-data0", "short-data1", "short-ack1", "ack2-echo", "fdataR:2210f1aabb",
 ]
 ALPHA_CORE = ["ack1", "ack2", "data:62f1aa", "data:7f2278", "alive0", "err40", "fdataS:aa", "ack1-echo"]
 
@@ -92,6 +92,13 @@ def items(tier: str, seed: int) -> list[Any]:
                     L = stream_len(fr, PROGRAMS[pname])
                     for k in range(1, L):
                         add(fr, pname, ("at", k), b=0 if quick and n == 2 else bound)
+    # gateway traffic spread over time: other frames keep arriving, the ack comes after the ack time / just in time
+    for filler in ("fdataS:aa", "ack1-echo", "data:62f1aa", "alive0"):
+        for ms in (1000, 250):
+            T = ms / 1000
+            for times, ack_at in (((0.6,), 1.2), ((0.4, 0.8), 1.3), ((0.6,), 0.9), ((0.5, 0.9), 0.95)):
+                fr = [(filler, 1, T * t) for t in times] + [("ack1", 1, T * ack_at), ("data:7f2278", 1, T * ack_at)]
+                add(fr, "wr", "frames", ms)
     # ack timeouts
     for ms in (250, 2500):
         for fr in scripts(ALPHA_CORE, 2, 1):
